@@ -1,0 +1,93 @@
+//! Verification hooks (cargo feature `verif`, off by default).
+//!
+//! An external deterministic-simulation harness may install a table of
+//! callbacks once per process. Until it does, every wrapper below is a no-op,
+//! so a build with the feature enabled behaves exactly like one without it.
+//! Nothing in this module is compiled unless the feature is enabled.
+
+use std::sync::OnceLock;
+
+/// Callbacks a harness can install. All are plain function pointers.
+pub struct Hooks {
+    /// Called by the spawning thread right before `scope.spawn`; returns a token for the child.
+    pub spawn_prepare: fn() -> u64,
+    /// Called by the spawning thread right after `scope.spawn` returned.
+    pub after_spawn: fn(u64),
+    /// First statement of a spawned closure.
+    pub thread_begin: fn(u64),
+    /// Last action of a spawned closure (also on unwind).
+    pub thread_end: fn(),
+    /// Called by the spawning thread at the end of a `thread::scope` body.
+    pub join_begin: fn(),
+    /// A point at which the harness may switch threads: (site, a, b).
+    pub yield_point: fn(u32, usize, usize),
+    /// A scratch carve: (parent, taken, remainder) as (address, length) pairs.
+    pub arena_take: fn((usize, usize), (usize, usize), (usize, usize)),
+}
+
+static HOOKS: OnceLock<Hooks> = OnceLock::new();
+
+/// Work item of `execute_bdd_circuit_multi_thread`: a = output index, b = thread index.
+pub const SITE_BDD_ITEM: u32 = 1;
+/// Work item of `fhe_uint_prepare_custom_multi_thread`: a = bit index, b = thread index.
+pub const SITE_PREPARE_ITEM: u32 = 2;
+
+/// Installs the callback table. Returns `false` if one was already installed.
+pub fn install(hooks: Hooks) -> bool {
+    HOOKS.set(hooks).is_ok()
+}
+
+#[inline]
+pub fn spawn_prepare() -> u64 {
+    match HOOKS.get() {
+        Some(h) => (h.spawn_prepare)(),
+        None => 0,
+    }
+}
+
+#[inline]
+pub fn after_spawn(token: u64) {
+    if let Some(h) = HOOKS.get() {
+        (h.after_spawn)(token)
+    }
+}
+
+/// Dropping the guard reports the end of the spawned closure.
+pub struct Guard(());
+
+impl Drop for Guard {
+    fn drop(&mut self) {
+        if let Some(h) = HOOKS.get() {
+            (h.thread_end)()
+        }
+    }
+}
+
+#[inline]
+pub fn thread_begin(token: u64) -> Guard {
+    if let Some(h) = HOOKS.get() {
+        (h.thread_begin)(token)
+    }
+    Guard(())
+}
+
+#[inline]
+pub fn join_begin() {
+    if let Some(h) = HOOKS.get() {
+        (h.join_begin)()
+    }
+}
+
+#[inline]
+pub fn yield_point(site: u32, a: usize, b: usize) {
+    if let Some(h) = HOOKS.get() {
+        (h.yield_point)(site, a, b)
+    }
+}
+
+#[inline]
+pub fn arena_take(parent: (usize, usize), taken: (usize, usize), rem: (usize, usize)) {
+    if let Some(h) = HOOKS.get() {
+        (h.arena_take)(parent, taken, rem)
+    }
+}
